@@ -103,6 +103,7 @@ def _case(args):
             allenv = range(uni.N)
             for item in data:
                 part.count("transitions")
+                rp = {"kind": kind, "cls": cls, "cfg": cfg, "item": item}
                 if kind in ("merge", "merge_anc", "combine"):
                     anc_spec, specs, cnames = item
                     anc = build(uni, cls, cfg, anc_spec) if anc_spec is not None else None
@@ -124,10 +125,10 @@ def _case(args):
                             exp = {i for i in Ma if any(ctab[cn][i] for cn in cnames)}
                         got = model_set(uni, r)
                     except Exception as e:
-                        part.fail(f"{cls}:{kind}:raise:{type(e).__name__}", case, str(e)[:200])
+                        part.fail(f"{cls}:{kind}:raise:{type(e).__name__}", case, str(e)[:200], rp)
                         continue
                     if got != frozenset(exp):
-                        part.fail(f"{cls}:{kind}", case, {"expected_models": len(exp), "got_models": len(got), "missing": sorted(exp - got)[:5], "extra": sorted(got - exp)[:5]})
+                        part.fail(f"{cls}:{kind}", case, {"expected_models": len(exp), "got_models": len(got), "missing": sorted(exp - got)[:5], "extra": sorted(got - exp)[:5]}, rp)
                     else:
                         part.sample({"case": case, "models": len(got)}, limit=1)
                     # approximate queries on the result must still cover every model (bound-based replacements of the
@@ -138,7 +139,7 @@ def _case(args):
                             mx = r.max(uni.E["x"], exact=False)
                             mn = r.min(uni.E["x"], exact=False)
                             if (mx & 7) < xs[-1] or (mn & 7) > xs[0]:
-                                part.fail(f"{cls}:{kind}:approximate-bounds-exclude", case, {"x_values": xs, "approx_min": mn, "approx_max": mx})
+                                part.fail(f"{cls}:{kind}:approximate-bounds-exclude", case, {"x_values": xs, "approx_min": mn, "approx_max": mx}, rp)
                         except claripy.errors.ClaripyError:
                             part.count("approximate_query_declined")
                     # the operands must be unchanged
@@ -162,7 +163,7 @@ def _case(args):
                         continue
                     vs = [set(r.variables) - {"CONCRETE"} for r in rs]
                     if any(a & b for a, b in itertools.combinations(vs, 2)):
-                        part.fail(f"{cls}:split:shared-variables", case, [sorted(v) for v in vs])
+                        part.fail(f"{cls}:split:shared-variables", case, [sorted(v) for v in vs], rp)
                         continue
                     try:
                         got = set(allenv)
@@ -174,13 +175,13 @@ def _case(args):
                         part.count("split_constraints_not_interpretable")
                         continue
                     if got != M:
-                        part.fail(f"{cls}:split:not-equivalent", case, {"expected_models": len(M), "got_models": len(got)})
+                        part.fail(f"{cls}:split:not-equivalent", case, {"expected_models": len(M), "got_models": len(got)}, rp)
                         continue
                     if "Composite" not in cls:
                         a = collections.Counter(c.hash() for c in conjuncts(before))
                         b = collections.Counter(c.hash() for r in rs for c in conjuncts(r.constraints))
                         if a != b:
-                            part.fail(f"{cls}:split:conjuncts", case, {"before": len(a), "after": len(b)})
+                            part.fail(f"{cls}:split:conjuncts", case, {"before": len(a), "after": len(b)}, rp)
                     # each part answers for itself
                     try:
                         prod = set(allenv)
@@ -333,7 +334,7 @@ def _case3(cls, cfg, data):
                     part.fail(f"{cls}:merge3:raise:{type(e).__name__}", case, str(e)[:200])
                     continue
                 if got != frozenset(exp):
-                    part.fail(f"{cls}:merge3", case, {"expected_models": len(exp), "got_models": len(got), "missing": sorted(exp - got)[:5], "extra": sorted(got - exp)[:5]})
+                    part.fail(f"{cls}:merge3", case, {"expected_models": len(exp), "got_models": len(got), "missing": sorted(exp - got)[:5], "extra": sorted(got - exp)[:5]}, {"kind": "merge3", "cls": cls, "cfg": cfg, "item": (anc_spec, specs, cnames)})
         except BaseException:
             import traceback
 
@@ -346,6 +347,30 @@ def _case3(cls, cfg, data):
     return out
 
 
+def _tup(x):
+    return tuple(_tup(y) for y in x) if isinstance(x, list) else x
+
+
 def replay(path: str) -> int:
-    print("replay: cases are listed in", path, "- re-run `check.py C15`")
-    return 0
+    import json
+
+    data = json.load(open(path))
+    bad = 0
+    for c in data["cases"]:
+        rp = c.get("replay")
+        if not rp:
+            print("replay: no payload recorded for", c["case"])
+            continue
+        item = _tup(rp["item"])
+        if rp["kind"] == "merge3":
+            res = _case3(rp["cls"], rp["cfg"], [item])
+        else:
+            res = _case((rp["kind"], rp["cls"], rp["cfg"], [item]))
+        hit = [f for f in res.get("failures", []) if f["case"] == c["case"]]
+        if hit:
+            bad += 1
+            print(f"VIOLATION property={PID} replay={path}")
+            print("  ", c["case"], str(hit[0]["detail"])[:200])
+        else:
+            print("replay:", c["case"], "holds now")
+    return 1 if bad else 0
